@@ -325,7 +325,7 @@ func Run(opts *Options) (int, error) {
 		itemIndex = 0
 		inputRevision.bumpMajor()
 		if verifOn {
-			verifCoord("restart", "rev", []int{inputRevision.major, inputRevision.minor})
+			verifCoord("restart", "rev", []int{inputRevision.major, inputRevision.minor}, "command", command.command)
 		}
 		header = make([]string, 0, opts.HeaderLines)
 		readyChan := make(chan bool)
@@ -409,6 +409,9 @@ func Run(opts *Options) (int, error) {
 						environ = val.environ
 						changed = val.changed
 						bump := false
+						if verifOn && len(val.denylist) > 0 {
+							verifCoord("deny", "ids", val.denylist, "compatible", val.revision.compatible(inputRevision))
+						}
 						if len(val.denylist) > 0 && val.revision.compatible(inputRevision) {
 							denyMutex.Lock()
 							for _, itemIndex := range val.denylist {
